@@ -226,7 +226,10 @@ CLAIMED['C04'] = dict(
         "(entropy, spawn key) of every chain against the model under vm_compute, also for proposal instances that drew numbers before the "
         "sampler got them; direct: every configuration rebuilt and rerun in 4-8 fresh interpreters differing in PYTHONHASHSEED, ambient "
         "numpy/random seeds, unrelated entropy-seeded objects and samplers built first, and pool; SHA-256 of all outputs must agree.",
-   note=WIRE_NOTE, technique="Coq proof (provenance and locality on the wiring model, list lemmas for the default-proposal order) + vm_compute correspondence + subprocess matrix",
+   note=WIRE_NOTE + "Source tie (Props/C04_src.v): a census of every file of epsie/ regenerated on every run (tools/py2coq.py): the only names taken "
+        "from numpy.random are PCG64, SeedSequence and Generator, and nothing refers to a process-wide source of randomness (numpy.random.*, the "
+        "stdlib random module, .rvs(), default_rng(), RandomState(), seed()).",
+   technique="Coq proof (provenance and locality on the wiring model, list lemmas for the default-proposal order) + vm_compute correspondence + subprocess matrix",
    ref="DESIGN.md section 3, C04")
 
 LAW_NOTE = NUM_NOTE + ("The law of a jump is formalised as a push-forward: a generator draw is mapped to the proposed point; a rejection loop "
